@@ -73,7 +73,7 @@ fn generate_or_load_identity(
         log::debug!("Generating a new keypair in {key_path:?}, it didn't exist",);
         let keypair = KeyPair::generate()?;
         #[cfg(feature = "verif")]
-        teos_common::verif::crash_point("tls:write-key");
+        teos_common::verif::crash_point_write("tls:write-key", &key_path);
         std::fs::write(&key_path, keypair.serialize_pem())?;
         log::debug!("Generating a new certificate for key {key_path:?} at {cert_path:?}",);
 
@@ -90,7 +90,7 @@ fn generate_or_load_identity(
             .push(rcgen::DnType::CommonName, name);
 
         #[cfg(feature = "verif")]
-        teos_common::verif::crash_point("tls:write-certificate");
+        teos_common::verif::crash_point_write("tls:write-certificate", &cert_path);
         std::fs::write(
             &cert_path,
             match parent {
